@@ -24,3 +24,26 @@ Definition validate_then_run (alleqs : list (string * list string)) (bad_vars ba
   | Err e => mkRR [] [] [] (Some e)
   | Ok _ => run p
   end.
+
+Lemma validate_err alleqs bv bt e : validate alleqs bv bt = Err e -> e = NameError.
+Proof.
+  induction alleqs as [|[x toks] r IH]; simpl; [discriminate|].
+  destruct (mem x bv); [intros H; now inversion H|].
+  destruct (existsb (fun t => mem t bt) toks); [intros H; now inversion H|exact IH].
+Qed.
+
+Lemma validate_rejects alleqs bv bt :
+  (exists x toks, In (x, toks) alleqs /\ (In x bv \/ exists t, In t toks /\ In t bt)) ->
+  validate alleqs bv bt = Err NameError.
+Proof.
+  intros [x [toks [Hin Hbad]]].
+  destruct (validate alleqs bv bt) as [[]|e] eqn:E; [|now rewrite (validate_err _ _ _ _ E)].
+  exfalso. induction alleqs as [|[y ty] r IH]; simpl in *; [tauto|].
+  destruct (mem y bv) eqn:Ey; [discriminate|].
+  destruct (existsb (fun t => mem t bt) ty) eqn:Et; [discriminate|].
+  destruct Hin as [Heq|Hin]; [|auto].
+  inversion Heq; subst. destruct Hbad as [Hb|[t [Ht Hb]]].
+  - apply mem_In in Hb. congruence.
+  - assert (existsb (fun t => mem t bt) toks = true); [|congruence].
+    apply existsb_exists. exists t. split; [exact Ht|now apply mem_In].
+Qed.
